@@ -19,6 +19,16 @@ TWINS = {
     ],
 }
 
+TWINS["memimage"] = [
+    ("RuntimeMemoryImage::read_string_until_null_terminator", "c19.read_string"),
+    ("RuntimeMemoryImage::read", "c19.read"),
+    ("RuntimeMemoryImage::is_global_memory_address", "c19.read"),
+    ("RuntimeMemoryImage::is_interval_readable", "c19.flags"),
+    ("RuntimeMemoryImage::is_interval_writeable", "c19.flags"),
+    ("RuntimeMemoryImage::is_address_writeable", "c19.flags"),
+    ("RuntimeMemoryImage::get_ro_data_pointer_at_address", "c19.flags"),
+]
+
 PROPS = {
     "C01": {
         "units": ["bitvector"],
@@ -36,6 +46,30 @@ PROPS = {
             "rule R5: a failing assert!/assert_eq!/expect diverges; panic freedom is proved for unwrap() sites only",
             "64-bit target (usize = u64)",
             "floating point operations are only proved to yield 'unknown'",
+        ],
+    },
+    "C18": {
+        "units": ["cwe560"],
+        "level_text": "The decision predicate of the umask check, cwe_560::is_chmod_style_arg, is extracted from /repo together with the two constants it reads and verified for every u64 argument against the property's own numbers: it answers true exactly when the argument exceeds 0o177 and differs from 0o777. Only this threshold decision is proved; how the argument is computed from the call block (a pointer-inference state folded over a block) and the sizeof-on-pointer check (cwe_467) are not covered.",
+        "level_note": "Not covered: get_umask_permission_arg / compute_block_end_state (pointer-inference State), cwe_467::check_for_pointer_sized_arg. Trusted: rule R13 (immutable static emitted as exec static with its initialiser as ensures).",
+        "design_ref": "DESIGN.md section 3 (C18)",
+        "default_twins": [], "sweep_twins": [],
+        "not_covered": ["cwe_560::get_umask_permission_arg (pointer-inference State over a block)", "cwe_560::check_cwe / generate_cwe_warning", "cwe_467::check_for_pointer_sized_arg", "pointer_inference::State::compute_block_end_state"],
+        "assumptions": ["only the threshold decision is decided; the computation of the argument value is out of reach of this technique (C13's reasons)"],
+    },
+    "C19": {
+        "units": ["memimage"],
+        "level_text": "RuntimeMemoryImage::{read, read_string_until_null_terminator, is_global_memory_address, is_interval_readable, is_interval_writeable, is_address_writeable, get_ro_data_pointer_at_address} are extracted from /repo and verified for every image whose segments are pairwise disjoint (adjacent segments included) with no bound on the number or size of segments: flag queries return the flags of the unique segment containing the address, read is Ok(None) exactly for a range inside one writable segment, Err exactly when no single segment contains the range, otherwise a value of the requested size; the string read returns exactly the bytes up to the first NUL of the containing segment.",
+        "level_note": "Trusted (R9 substitutions, contracts = std documentation): position of the first zero byte in a slice tail, CStr::from_bytes_with_nul / to_str (UTF-8 validity uninterpreted), and the byte-order assembly inside `read` (to_vec/rev/Piece fold) -- the 'in the image's byte order' clause rests on that assumed contract and is cross-checked only by the bounded twin sweep. 'read-only' is read as 'not writable' (the code never consults read_flag in read). Addresses >= 2^64 and size 0 are outside the contract (the code panics). Not covered: ELF/PE/bare-metal constructors.",
+        "design_ref": "DESIGN.md section 3 (C19)",
+        "default_twins": ["c19.read", "c19.read_string", "c19.flags"],
+        "sweep_twins": ["c19.read", "c19.read_string", "c19.flags"],
+        "not_covered": ["RuntimeMemoryImage::new / from_elf_segments / from_elf_sections / new_from_bare_metal / get_base_address (goblin, string parsing, iterator adapters)", "add_global_memory_offset (iter_mut)", "MemorySegment constructors"],
+        "assumptions": [
+            "segments pairwise disjoint as half-open address ranges, base + len <= u64::MAX (the property's 'disjoint segments')",
+            "R9: std contracts for slice position / CStr::from_bytes_with_nul / to_str; byte-order assembly of `read` assumed (shim/memimage.rs)",
+            "address values < 2^64 and 1 <= size <= 2^25 (otherwise the real code panics)",
+            "apint contracts (shim/apint.rs), rule R4/R5",
         ],
     },
 }
